@@ -144,6 +144,151 @@ def run_graph(ctx, templates, leafname='leafrule'):
         sys.setrecursionlimit(old)
 
 
+def _problem(templates, slot, defined, universe):
+    """Independent graph analysis (z3 formula over the slot variables) of
+    the rule set that defines names[i] for i in *defined* plus the leaf."""
+    k = len(templates)
+    UNDEF = len(universe) - 1
+    defined = sorted(defined)
+    und = []
+    for (i, s), c in slot.items():
+        if i not in defined:
+            continue
+        und.append(c.var == UNDEF)
+        for j in range(k):
+            if j not in defined:
+                und.append(c.var == j)
+    undefined = z3.Or(*und) if und else z3.BoolVal(False)
+
+    def edge(i, j):
+        conds = [slot[(i, s)].var == j for s in range(NSLOTS[templates[i]])]
+        return z3.Or(*conds) if conds else z3.BoolVal(False)
+    cyc = []
+    for ln in range(1, len(defined) + 1):
+        for combo in itertools.permutations(defined, ln):
+            if combo[0] != min(combo):
+                continue
+            cyc.append(z3.And(*[edge(combo[x], combo[(x + 1) % ln])
+                                for x in range(ln)]))
+    cyclic = z3.Or(*cyc) if cyc else z3.BoolVal(False)
+    return z3.Or(undefined, cyclic)
+
+
+def run_recheck(ctx, templates, how):
+    """Validation of a long-lived enforcer: the rule set is validated,
+    changed in place (late registration of a default followed by a load,
+    item assignment, dict.update, set_rules without overwrite), and
+    validated again.  Each verdict must be the graph analysis of the rule
+    set *at that moment*."""
+    from oslo_policy import _parser, policy
+    common.set_ctx(ctx)
+    k = len(templates)
+    names = ['n%d' % i for i in range(k)]
+    universe = names + ['leafrule', 'nope']
+    slot1, slot2 = {}, {}
+
+    def body(i, phase, store, b=None):
+        if b is None:
+            b = _parser.parse_rule(TEMPLATES[templates[i]])
+        binds = {}
+        for s in range(NSLOTS[templates[i]]):
+            c = ctx.choice('slot%d.%s.%d' % (phase, names[i], s), universe,
+                           lazy=True)
+            store[(i, s)] = c
+            binds['s%d' % s] = c
+        _bind_slots(b, binds)
+        return b
+
+    def det(m, **kw):
+        d = dict(kw, templates=templates, how=how)
+        if m is not None:
+            for nm, sl in (('slots1', slot1), ('slots2', slot2)):
+                d[nm] = {('%s.%d' % (names[i], s)): universe[
+                    m.eval(c.var, model_completion=True).as_long()]
+                    for (i, s), c in sl.items()}
+        return d
+
+    def verdict(enf, label, problem):
+        got = bool(enf.check_rules())
+        try:
+            enf.check_rules(raise_on_violation=True)
+            raised = False
+        except policy.InvalidDefinitionError:
+            raised = True
+        ctx.observe(label, [got, raised])
+        ctx.require(mkbool(z3.BoolVal(got) == z3.Not(problem)),
+                    'recheck:%s-verdict-%s' % (
+                        label, 'clean-but-problem' if got
+                        else 'problem-but-clean'),
+                    detail=lambda m: det(m, check_rules=got))
+        ctx.require(raised == (not got), 'recheck:%s-raise_on_violation'
+                    % label, detail=lambda m: det(m, check_rules=got))
+        return got
+    env = None
+    try:
+        if how == 'late-default':
+            # phase 1 defines every name but the last, which a plugin
+            # registers after the first load
+            env = common.PolicyEnv()
+            env.write('policy.yaml', {'leafrule': 'role:x'})
+            dfl = []
+            for i in range(k):
+                d = policy.RuleDefault(names[i], TEMPLATES[templates[i]])
+                body(i, 1, slot1, d.check)
+                dfl.append(d)
+            enf = env.enforcer(defaults=dfl[:-1])
+            enf.load_rules()
+            verdict(enf, 'first', _problem(templates, slot1,
+                                           range(k - 1), universe))
+            enf.register_default(dfl[-1])
+            enf.load_rules()
+            verdict(enf, 'second', _problem(templates, slot1, range(k),
+                                            universe))
+            ctx.cover('recheck:late-default')
+            return
+        rules = {'leafrule': _parser.parse_rule('role:x')}
+        for i in range(k):
+            rules[names[i]] = body(i, 1, slot1)
+        enf = common.mk_enforcer(rules=policy.Rules(rules))
+        verdict(enf, 'first', _problem(templates, slot1, range(k), universe))
+        # rebind the first name; the others keep their bodies
+        new0 = body(0, 2, slot2)
+        for key, c in slot1.items():
+            if key[0] != 0:
+                slot2[key] = c
+        if how == 'item':
+            enf.rules[names[0]] = new0
+        elif how == 'update':
+            enf.rules.update({names[0]: new0})
+        elif how == 'set_rules-no-overwrite':
+            enf.set_rules({names[0]: new0}, overwrite=False)
+        else:
+            del enf.rules[names[0]]
+            enf.rules.setdefault(names[0], new0)
+        verdict(enf, 'second', _problem(templates, slot2, range(k),
+                                        universe))
+        ctx.cover('recheck:in-place')
+    finally:
+        if env is not None:
+            env.close()
+
+
+def cubes_recheck(tier, seed):
+    out = []
+    small = ['S', 'notS', 'SandS', 'leaf'] if tier == 'quick' else \
+        ['S', 'notS', 'SandS', 'SorS', 'not(SorS)', 'leaf']
+    for a in small:
+        for b in small:
+            if NSLOTS[a] + NSLOTS[b] > (3 if tier == 'quick' else 4):
+                continue
+            for how in ('late-default', 'item', 'update',
+                        'set_rules-no-overwrite', 'del-setdefault'):
+                if how != 'late-default' and NSLOTS[a] == 0:
+                    continue
+                out.append({'templates': [a, b], 'how': how})
+    return out
+
+
 def cubes_graph(tier, seed):
     import random
     rng = random.Random(seed)
@@ -262,15 +407,17 @@ def cubes_validator(tier, seed):
 
 
 HARNESSES = {
+    'recheck': {'fn': run_recheck, 'cubes': cubes_recheck},
     'graph': {'fn': run_graph, 'cubes': cubes_graph},
     'validator': {'fn': run_validator, 'cubes': cubes_validator},
 }
 REQUIRED_COVER = ['graph:reported-clean', 'graph:reported-problem',
-                  'graph:clean-evaluated', 'validator:rc0', 'validator:rc1']
+                  'graph:clean-evaluated', 'validator:rc0', 'validator:rc1',
+                  'recheck:late-default', 'recheck:in-place']
 
 
 def cube_weight(h, p):
-    if h == 'graph':
+    if h in ('graph', 'recheck'):
         return 6 ** sum(NSLOTS[t] for t in p['templates'])
     return 12 ** p['nfile']
 
@@ -283,6 +430,12 @@ def evidence(tier):
                      'and/or/not/groups; every slot ranges over all names, a '
                      'defined leaf rule and an undefined name' % len(
                          TEMPLATES),
+            'recheck': 'two validations of one enforcer with 2 names '
+                       '(templates with <= %d slots in total), the rule set '
+                       'changed in place between them: default registered '
+                       'late + load_rules, item assignment, dict.update, '
+                       'set_rules(overwrite=False), del + setdefault; both '
+                       'graphs symbolic' % (3 if tier == 'quick' else 4),
             'validator': 'policy files of 1-%d rules with bodies from %r, '
                          'file present or missing' % (
                              2 if tier == 'quick' else 3, VAL_BODIES),
